@@ -268,33 +268,86 @@ Proof.
   unfold keys_ok. intros Hk. rewrite reset_is_spec, map_map. cbn [fst]. exact Hk.
 Qed.
 
+(* ------------------------------------------------------------------ dictionary-form writes *)
+
+Definition dset_all (kvs : list (Z * Z)) (d : dict) : dict :=
+  fold_left (fun d kv => d_set d (fst kv) (snd kv)) kvs d.
+
+Lemma dset_all_keys kvs : forall d,
+  forallb (fun kv => d_mem d (fst kv)) kvs = true -> map fst (dset_all kvs d) = map fst d.
+Proof.
+  induction kvs as [|[k v] kvs IH]; intros d H; [reflexivity|].
+  cbn [forallb fst] in H. apply andb_true_iff in H as [Hk Hr].
+  unfold dset_all. cbn [fold_left fst snd]. fold (dset_all kvs (d_set d k v)).
+  rewrite IH.
+  - apply d_set_keys_mem. unfold d_mem in Hk.
+    destruct (d_get d k); [intros Hc; discriminate Hc | discriminate Hk].
+  - apply forallb_forall. intros [k' v'] Hin. rewrite forallb_forall in Hr.
+    specialize (Hr (k', v') Hin). cbn [fst] in *. unfold d_mem in *. rewrite d_get_set.
+    destruct (k =? k'); [reflexivity|exact Hr].
+Qed.
+
+(* the dictionary form of setValues is only meaningful (and only generated) for sparse blocks *)
+Definition is_dict_op (o : bop) : bool := match o with BSetDict _ => true | _ => false end.
+Definition dict_ok (b : block) (ops : list bop) : bool :=
+  match b with BSp _ => true | BSeq _ => forallb (fun o => negb (is_dict_op o)) ops end.
+
+Lemma dict_ok_tail b b' o ops :
+  (match b, b' with BSeq _, BSeq _ | BSp _, BSp _ => True | _, _ => False end) ->
+  dict_ok b (o :: ops) = true -> dict_ok b' ops = true.
+Proof.
+  destruct b, b'; intros Hk H; try contradiction; cbn [dict_ok forallb] in *; [|reflexivity].
+  apply andb_true_iff in H as [_ H]. exact H.
+Qed.
+
 (* ------------------------------------------------------------------ all histories *)
 
 Theorem model_satisfies_oracle ops : forall b,
-  keys_ok b ->
+  keys_ok b -> dict_ok b ops = true ->
   prop_block (blk_default b) (blk_iter b) ops (run_block code b ops) = true.
 Proof.
-  induction ops as [|o ops IH]; intros b Hk; [reflexivity|].
-  destruct o as [a c|a c|a vs| |]; cbn [run_block step_block prop_block].
+  induction ops as [|o ops IH]; intros b Hk Hd; [reflexivity|].
+  destruct o as [a c|a c|a vs| | |a v|kvs]; cbn [run_block step_block prop_block].
   - (* validate *)
-    rewrite IH by exact Hk. rewrite andb_true_r.
+    rewrite IH by (assumption || (eapply dict_ok_tail; [|exact Hd]; destruct b; exact I)).
+    rewrite andb_true_r.
     destruct (1 <=? c) eqn:Ec; [|reflexivity].
     rewrite validate_is_accepts by lia. cbn. apply eqb_reflx.
   - (* get *)
-    rewrite IH by exact Hk. rewrite andb_true_r.
+    rewrite IH by (assumption || (eapply dict_ok_tail; [|exact Hd]; destruct b; exact I)).
+    rewrite andb_true_r.
     destruct (spec_accepts (blk_iter b) a c) eqn:Eacc; [|reflexivity].
     rewrite get_is_spec by exact Eacc. cbn. apply zlist_eqb_refl.
   - (* set *)
     destruct (spec_accepts (blk_iter b) a (Z.of_nat (length vs))) eqn:Eacc; [|reflexivity].
     cbn [bout_eqb andb]. rewrite <- set_is_spec by exact Eacc.
-    rewrite <- (default_set b a vs). apply IH. apply keys_ok_set; assumption.
+    rewrite <- (default_set b a vs). apply IH; [apply keys_ok_set; assumption|].
+    eapply dict_ok_tail; [|exact Hd]. destruct b; exact I.
   - (* reset *)
     cbn [bout_eqb andb]. rewrite <- reset_is_spec.
-    rewrite <- (default_reset b) at 1. apply IH. apply keys_ok_reset, Hk.
+    rewrite <- (default_reset b) at 1. apply IH; [apply keys_ok_reset, Hk|].
+    eapply dict_ok_tail; [|exact Hd]. destruct b; exact I.
   - (* iter *)
-    rewrite IH by exact Hk. rewrite andb_true_r. apply same_cells_refl, Hk.
+    rewrite IH by (assumption || (eapply dict_ok_tail; [|exact Hd]; destruct b; exact I)).
+    rewrite andb_true_r. apply same_cells_refl, Hk.
+  - (* scalar set = set of a one-element list *)
+    change 1 with (Z.of_nat (length [v])).
+    destruct (spec_accepts (blk_iter b) a (Z.of_nat (length [v]))) eqn:Eacc; [|reflexivity].
+    cbn [bout_eqb andb]. rewrite <- set_is_spec by exact Eacc.
+    rewrite <- (default_set b a [v]). apply IH; [apply keys_ok_set; assumption|].
+    eapply dict_ok_tail; [|exact Hd]. destruct b; exact I.
+  - (* dictionary-form set: sparse blocks only *)
+    destruct b as [sq|sp].
+    + cbn [dict_ok forallb is_dict_op negb andb] in Hd. discriminate Hd.
+    + cbn [blk_iter blk_default]. unfold sp_iter.
+      destruct (forallb (fun kv => d_mem (sp_vals sp) (fst kv)) kvs) eqn:Eall; [|reflexivity].
+      cbn [bout_eqb andb].
+      change (fold_left (fun d kv => d_set d (fst kv) (snd kv)) kvs (sp_vals sp)) with (dset_all kvs (sp_vals sp)).
+      apply (IH (BSp {| sp_vals := dset_all kvs (sp_vals sp); sp_def := sp_def sp |})); [|reflexivity].
+      unfold keys_ok in *. cbn [blk_iter sp_iter sp_vals] in *. rewrite dset_all_keys by exact Eall. exact Hk.
 Qed.
 
 Corollary model_satisfies_oracle_seq ops s :
+  forallb (fun o => negb (is_dict_op o)) ops = true ->
   prop_block (sb_def s) (seq_iter s) ops (run_block code (BSeq s) ops) = true.
-Proof. apply (model_satisfies_oracle ops (BSeq s)). apply seq_iter_nodup. Qed.
+Proof. intros H. apply (model_satisfies_oracle ops (BSeq s)); [apply seq_iter_nodup | exact H]. Qed.
